@@ -45,6 +45,147 @@ def c03_ub(kname):
         out.append(d)
     return out
 
+# --- typed memoryview variables that may be unset when read (module globals are zero-initialised structs; memview == NULL)
+MV_TEMPLATE = """# cython: language_level=3
+cdef int[:] table
+cdef int[:, :] grid
+def get_table(): return table
+def get_grid_T(): return grid.T
+def table_base(): return table.base
+def set_table(int[:] a):
+    global table
+    table = a
+"""
+MV_FUNCS = [('get_table', 'table'), ('get_grid_T', 'grid'), ('table_base', 'table')]
+_MVB = None
+MV_REPLAY = r"""
+import sys
+sys.path.insert(0, %(dir)r)
+import %(mod)s as M
+bad = []
+try:
+    M.%(fn)s()
+    bad.append('no exception')
+except UnboundLocalError:
+    pass
+except Exception as e:
+    bad.append(repr(e))
+print('REPLAY-REPRODUCED' if bad else 'REPLAY-HOLDS', bad)
+"""
+
+
+def mv_unbound(job):
+    """one read of a module-level memoryview slice: with memview == NULL the function raises UnboundLocalError and no consumer of the slice sees the NULL"""
+    import re
+    from ..cir.symex import Ptr
+    fn, gname = job
+    T = int(os.environ.get('VF_QTIMEOUT', '60'))
+    t0 = time.time()
+    try:
+        ex, env = _MVB.new_exec(unroll=2)
+        for nm in ('Py_INCREF', 'Py_DECREF', 'Py_XDECREF', 'Py_XINCREF', '__Pyx_AddTraceback', '__Pyx_XCLEAR_MEMVIEW'):
+            ex.stubs[nm] = lambda ex_, g, a, rt, c: None
+        gl = [x for x in ex.m.globals if re.match(r'^__pyx_v_\d+%s_%s$' % (_MVB.name, gname), x)]
+        if len(gl) != 1:
+            raise KeyError('global slice %s not found (%r)' % (gname, gl))
+        reg = ex.regions[next(iter(ex.global_ptr(gl[0]).regions))]
+        bound = z3.Bool('memview_is_set')
+        mv = ex.new_region('memview_object', size=None, lazy=True)
+        reg.fields.clear()
+        reg.lazy = True
+        reg.fields[0] = (8, Ptr(z3.If(bound, z3.BitVecVal(mv.base, 64), z3.BitVecVal(0, 64)), [mv.id, 0]))
+        uses = []
+
+        def consumer(nm):
+            def f(ex_, gd, a, rt, caller):
+                v = ex_.load(a[0], ir.parse_type_str('i8*'), gd, nm)
+                uses.append((nm, gd, v.bv if isinstance(v, Ptr) else v))
+                return ex_.fresh_of(rt, 'res') if getattr(rt, 'kind', '') != 'void' else None
+            return f
+        # consumers that dereference slice.memview (the NULL-tolerant __Pyx_XCLEAR_MEMVIEW is a no-op: reference and acquisition counts are C35's subject)
+        for nm in ('__pyx_memoryview_fromslice', '__pyx_memslice_transpose', '__Pyx_INC_MEMVIEW', '__pyx_memoryview_copy_new_contig', '__pyx_memoryview_slice_memviewslice'):
+            ex.stubs[nm] = consumer(nm)
+
+        def getattr_(ex_, gd, a, rt, c):
+            ok = ex_.newbool('getattr_ok')
+            o = ex_.new_region('attr', size=None, lazy=True)
+            env.set_error(z3.And(gd, z3.Not(ok)), ex_.ptr_to(env.exc_type('PyExc_AttributeError')))
+            return Ptr(z3.If(ok, z3.BitVecVal(o.base, 64), z3.BitVecVal(0, 64)), [o.id, 0])
+        ex.stubs['__Pyx_PyObject_GetAttrStr'] = getattr_
+        uerr = env.exc_type('PyExc_UnboundLocalError')
+
+        def raise_unbound(ex_, gd, a, rt, c):
+            env.set_error(gd, ex_.ptr_to(uerr))
+        ex.stubs['__Pyx_RaiseUnboundLocalError'] = raise_unbound
+        ex.stubs['__Pyx_RaiseUnboundMemoryviewSliceNogil'] = raise_unbound
+        f = [x for x in _MVB.module.functions if re.match(r'^__pyx_pf_\d+%s_\d*%s$' % (_MVB.name, fn), x)]
+        if len(f) != 1:
+            raise KeyError('function %s not found (%r)' % (fn, f))
+        ret, rg = ex.run(f[0], [symex.NULLPTR])
+    except (symex.Unsupported, ir.ParseError, KeyError, IndexError) as e:
+        return [dict(name='memoryview global %s:encode' % fn, status='inconclusive', s=time.time() - t0, detail=str(e)[:300])]
+    pre = list(ex.assumptions)
+    out = []
+    cex = dict(kind='mv', fn=fn)
+    nullc = z3.Or(*[z3.And(gd, v == 0) for _, gd, v in uses]) if uses else z3.BoolVal(False)
+    r, m, s = solve.check(pre + [nullc], T)
+    out.append(dict(name='memoryview global %s: no UB: no consumer of the slice (%s) is reached with memview == NULL' % (fn, ', '.join(sorted({u[0] for u in uses})) or 'none'),
+                    s=s, status={'unsat': 'proved', 'sat': 'refuted'}.get(r, 'inconclusive'), cex=cex))
+    r, m, s = solve.check(pre + [z3.Not(bound), z3.Not(z3.And(rg, ret.bv == 0, env.error_is('PyExc_UnboundLocalError')))], T)
+    out.append(dict(name='memoryview global %s: no UB: read before the first assignment returns NULL with UnboundLocalError set' % fn, s=s,
+                    status={'unsat': 'proved', 'sat': 'refuted'}.get(r, 'inconclusive'), cex=cex))
+    r, m, s = solve.check(pre + [bound, rg, ret.bv != 0] + [gd for _, gd, _ in uses[:1]], T)
+    out.append(dict(name='memoryview global %s: reach: an assigned slice reaches its consumer and an object is returned' % fn, s=s,
+                    status={'sat': 'witness', 'unsat': 'vacuous'}.get(r, 'inconclusive'), mandatory=True))
+    return out
+
+
+_MV_NATIVE = None
+
+
+def mv_replay(rep, cex):
+    global _MV_NATIVE
+    import subprocess
+    try:
+        if _MV_NATIVE is None:
+            _MV_NATIVE = build.native(_MVB.cfile)
+    except build.BuildError as e:
+        return None, 'native build failed: %s' % e
+    p = subprocess.run(['/verif/.venv/bin/python', '-c', MV_REPLAY % dict(dir=os.path.dirname(_MV_NATIVE), mod=_MVB.name, fn=cex['fn'])], capture_output=True, text=True, timeout=120)
+    txt = (p.stdout + p.stderr).strip()[-400:]
+    rep.validated += 1
+    if p.returncode < 0:
+        return True, 'process died with signal %d' % (-p.returncode)
+    return 'REPLAY-REPRODUCED' in txt, txt
+
+
+def _mv_init(b):
+    global _MVB
+    _MVB = b
+
+
+def run_mv(rep):
+    global _MVB
+    _MVB = harness.build_template('c36mv', MV_TEMPLATE)
+    rep.functions += ['generated code reading module-level typed memoryview variables (ExprNodes.NameNode.generate_result_code unbound check for memoryview slices, '
+                      'initializedcheck=True): %s [%s]' % (', '.join(f for f, _ in MV_FUNCS), build.sha(_MVB.cfile))]
+    rep.bounds += ['memoryview globals: ONE read of the variable with slice.memview symbolic (NULL = never assigned, or an arbitrary memoryview object); every consumer of the slice '
+                   '(__pyx_memoryview_fromslice, __pyx_memslice_transpose, __Pyx_INC_MEMVIEW) is an event whose memview argument must be non-NULL; '
+                   'outside: initializedcheck=False (documented as unchecked), closures, nogil sections, reference / acquisition counting (no-op stubs)']
+    with mp.Pool(3, initializer=_mv_init, initargs=(_MVB,)) as pool:
+        results = pool.map(mv_unbound, MV_FUNCS, chunksize=1)
+    for job, res in zip(MV_FUNCS, results):
+        for d in res:
+            if d['status'] == 'refuted':
+                ok, txt = mv_replay(rep, d['cex'])
+                if ok:
+                    rep.obligation(d['name'], 'refuted', d['s'], True, str(d['cex']))
+                    rep.violation('%s fails for %s(): %s' % (d['name'], job[0], txt), dict(cex=d['cex'], replay_output=txt))
+                else:
+                    rep.obligation(d['name'], 'inconclusive', d['s'], True, 'counterexample did not reproduce: %s' % txt[:200])
+            else:
+                rep.obligation(d['name'], d['status'], d['s'], True, d.get('detail'))
+
 
 def only_ub(res):
     return [d for d in res if 'no UB' in d['name'] or 'inside the axis' in d['name'] or 'out-of-buffer' in d['name'] or d['name'].endswith(':encode')]
@@ -59,6 +200,10 @@ def run(rep, tier, only=None):
                    'outside: programs outside the template families; sanitizer runs of arbitrary generated programs (a dynamic technique)']
     rep.assume('deliberate wrap-arounds written as unsigned arithmetic are not nsw in the IR and therefore not obligations',
                'counterexamples are replayed on native / UBSan builds by the owning check\'s replay function')
+    if not only or 'mv' in only:
+        run_mv(rep)
+        if only and 'mv' in only:
+            return
     # --- division / modulo family
     src, ks = arith.divmod_family(['schar', 'short', 'int', 'long', 'uint', 'ulong'] if tier == 'quick' else None)
     C03._K = {k.name: k for k in ks}
